@@ -74,9 +74,9 @@ class SQLLineageApp:
                     request_body = environ["wsgi.input"].read(request_body_size)
                     payload = json.loads(request_body)
                     for param in ["d", "f"]:
-                        if param in payload and not str(
-                            Path(payload[param]).absolute()
-                        ).startswith(str(Path(self.root_path).absolute())):
+                        if param in payload and not self.is_path_allowed(
+                            payload[param]
+                        ):
                             return self.handle_403(start_response)
                     data = self.routes[path_info](payload)
                     return self.handle_200_json(start_response, data)
@@ -104,6 +104,14 @@ class SQLLineageApp:
             return self.handle_404(start_response)
         except (SQLLineageException, RuntimeError) as e:
             return self.handle_400(start_response, str(e))
+
+    def is_path_allowed(self, path) -> bool:
+        """
+        only the root path and what is below it, once '.', '..' and symlinks are resolved, can be accessed
+        """
+        root = Path(self.root_path).resolve()
+        resolved = Path(path).resolve()
+        return resolved == root or root in resolved.parents
 
     @staticmethod
     def handle_200_text(start_response, mimetype, text) -> list[bytes]:
@@ -190,6 +198,9 @@ def script(payload):
 def directory(payload):
     if payload.get("f"):
         root = Path(payload["f"]).parent
+        if not app.is_path_allowed(root):
+            # the directory to list is the parent of f, which can be outside of root path even if f is not
+            raise PermissionError(f"{root} is not allowed for accessing")
     elif payload.get("d"):
         root = Path(payload["d"])
     else:
